@@ -17,8 +17,9 @@ TRUSTED = [
     "tie: streams of the previous version, reference-encoded by the harness, are read by the C++ code generated for the new "
     "version and re-written (and vice versa with Version::<label>); the output is decoded inside Coq with the destination types "
     "and schema and compared with the converted values; documented runtime errors must make the translator fail",
-    "only the C++ backend implements evolution; values are generated inside the domain of the model: small integers, no "
-    "number<->string or floating-point width conversions; harness/lib/evomodel.py expands model.json",
+    "only the C++ backend implements evolution; values are generated inside the domain of the model: integers, integer <-> "
+    "floating point (bit patterns around the type limits, halfway cases, inf, NaN), no number<->string, no floating-point width "
+    "or complex conversions; harness/lib/evomodel.py expands model.json",
     "g++ with the xtensor/date shims of /verif/shims",
 ]
 MAIN = r'''
@@ -142,6 +143,28 @@ NumRec: !record
   fields:
     f: uint16
     g: uint8
+
+FltA: !protocol
+  sequence:
+    x: float32
+
+FltB: !protocol
+  sequence:
+    x: float64
+
+FltC: !protocol
+  sequence:
+    x: int32
+
+FltD: !protocol
+  sequence:
+    xs: !stream
+      items: int64
+
+FltF: !protocol
+  sequence:
+    x: float64
+    y: float32
 '''
 V1 = '''
 Rec: !record
@@ -241,6 +264,28 @@ NumRec: !record
   fields:
     f: int16
     g: int8
+
+FltA: !protocol
+  sequence:
+    x: int32
+
+FltB: !protocol
+  sequence:
+    x: int64
+
+FltC: !protocol
+  sequence:
+    x: float32
+
+FltD: !protocol
+  sequence:
+    xs: !stream
+      items: float64
+
+FltF: !protocol
+  sequence:
+    x: uint8
+    y: int16
 '''
 V2 = V1.replace("    required: int32\n", "    required: int32\n    third: uint8?\n")\
        .replace("    toUnion: [int32, string]\n", "    toUnion: [int32, string, bool]\n")
@@ -261,7 +306,42 @@ def edge_int(rng, signed, w):
     return rng.choice([x for x in c if lo <= x <= hi])
 
 
-def gen_small(rng, steps, edges=False):
+F32_EDGE = [0.0, -0.0, 0.5, -0.5, 1.5, 2.5, -2.5, 3.4999, 100.25, 255.0, 255.5, 256.0, -1.0, 32767.0, 32767.5, -32768.0, -32768.5,
+            16777216.0, 2147483520.0, 2147483648.0, -2147483648.0, -2147483904.0, 4294967296.0, 1e20, float("inf"), float("-inf"), float("nan")]
+F64_EDGE = F32_EDGE + [2147483647.0, 2147483647.4, 2147483647.5, -2147483648.5, 4503599627370497.5, 9007199254740993.0,
+                       9223372036854774784.0, 9223372036854775808.0, -9223372036854775808.0, -9223372036854777856.0, 1e300]
+
+
+def gen_numbers(rng, steps):
+    """values for the integer <-> floating-point protocols: bit patterns around the limits of the integer types, halfway cases,
+    infinities and NaN; integers around the precision of the floating-point types"""
+    import struct
+
+    def val(t):
+        if t.kind == "prim" and t.p == "float32":
+            x = rng.choice(F32_EDGE) if rng.random() < 0.8 else rng.uniform(-70000, 70000)
+            return ("bits", struct.unpack("<I", struct.pack("<f", x))[0])
+        if t.kind == "prim" and t.p == "float64":
+            x = rng.choice(F64_EDGE) if rng.random() < 0.8 else rng.uniform(-1e10, 1e10)
+            return ("bits", struct.unpack("<Q", struct.pack("<d", x))[0])
+        s_, w = ymodel.INTW[t.p]
+        hi = 2 ** (w - 1) - 1 if s_ else 2 ** w - 1
+        lo = -2 ** (w - 1) if s_ else 0
+        c = [0, 1, -1, 3, 255, 16777216, 16777217, 16777219, 2 ** 31 - 1, -2 ** 31, 2 ** 53, 2 ** 53 + 1, 2 ** 53 + 3, 2 ** 63 - 1, -2 ** 63, hi, lo]
+        return ("int", rng.choice([x for x in c if lo <= x <= hi]))
+    ws = []
+    for n, t, st, _ in steps:
+        if st:
+            items = [val(t) for _ in range(rng.choice([0, 1, 3]))]
+            ws.append(ymodel.partition(rng, items))
+        else:
+            ws.append(val(t))
+    return ws
+
+
+def gen_small(rng, steps, edges=False, numbers=False):
+    if numbers:
+        return gen_numbers(rng, steps)
     saved = ymodel.gen_int
     ymodel.gen_int = edge_int if edges else small_int
     try:
@@ -378,7 +458,7 @@ def run(ctx):
                     continue
                 for _ in range(4 if quick else 25):
                     # upgrade: old stream -> newest reader -> newest writer
-                    ws = gen_small(rng, so, edges=p.startswith("Num"))
+                    ws = gen_small(rng, so, edges=p.startswith("Num"), numbers=p.startswith("Flt"))
                     steps_o = [(a, b, c) for a, b, c, _ in so]
                     stream = ymodel.enc_header(vp.schemas[i][p]) + ymodel.enc_steps(steps_o, ws)
                     okk, out, err = vp.run(p, "Current", stream)
@@ -387,7 +467,7 @@ def run(ctx):
                     cases.append("(%s, %s, %s, %s, %s, %s)" % (rn_up, src, dst, coq_bytes(vp.schemas[-1][p].encode()), coq_bytes(out), "false" if okk else "true"))
                     meta.append(("upgrade v%d->v%d" % (i, n - 1), p, rep0, stream, out, err))
                     # downgrade: newest values -> writer for Version::v<i>
-                    ws = gen_small(rng, sn, edges=p.startswith("Num"))
+                    ws = gen_small(rng, sn, edges=p.startswith("Num"), numbers=p.startswith("Flt"))
                     steps_n = [(a, b, c) for a, b, c, _ in sn]
                     stream = ymodel.enc_header(vp.schemas[-1][p]) + ymodel.enc_steps(steps_n, ws)
                     okk, out, err = vp.run(p, "v%d" % i, stream)
